@@ -162,8 +162,21 @@ type scenario struct {
 
 func genScenario() scenario {
 	var s scenario
+	StrayBytes = rnd.Chance(10)
+	if StrayBytes {
+		StrayString = Pick(rnd, StrayKinds)
+		out.Note("names-with-stray-bytes")
+	}
 	s.m = GenX(rnd)
 	x := XOf(s.m)
+	if rnd.Chance(6) {
+		// programs whose package paths nest, items named so that (program, name) pairs concatenate alike
+		BigValues = false
+		cfg, files := GenNestedProgramsWeek(rnd, x)
+		s.ucfg, s.files, s.nb = cfg, files, 2
+		out.Note("nested-programs-week")
+		return s
+	}
 	if rnd.Chance(8) {
 		// two different programs with the same base name, version and platform, one of them approved
 		BigValues = false
